@@ -4,6 +4,10 @@ let pair (h, d) = VT [VB h; VB d]
 let unit_ () = VNone
 let vil v = List.map vi (vl v)
 let bad () = raise (Bad "arity")
+(* batch variants: one reply element per input; an error is reported as its kind name (a string) *)
+let bytes_of_string (s : string) = List.init (String.length s) (fun i -> byte_tab.(Char.code s.[i]))
+let elem f r = match r with Model.Ok a -> f a | Model.Err e -> VS (bytes_of_string (err_name e))
+let item3 v = match v with VT [d; v; n] | VL [d; v; n] -> (vb d, vi v, vb n) | _ -> raise (Bad "item")
 let () =
   register "c06_segwit_addr" (function [d; v; n] -> of_result (fun b -> VB b) (Model.c06_segwit_addr (vb d) (vi v) (vb n)) | _ -> bad ());
   register "c06_to_bitcoin_address_witness" (function [d; n; v] -> of_result (fun b -> VB b) (Model.c06_to_bitcoin_address_witness (vb d) (vb n) (vi v)) | _ -> bad ());
@@ -23,4 +27,10 @@ let () =
   register "c06_bech32_create_checksum" (function [h; d; c] -> ROk (VL (List.map (fun z -> VI z) (Model.c06_bech32_create_checksum (vb h) (vil d) (vi c)))) | _ -> bad ());
   register "c06_bech32_verify_checksum" (function [h; d; c] -> ROk (VBool (Model.c06_bech32_verify_checksum (vb h) (vil d) (vi c))) | _ -> bad ());
   register "c06_spec_decode" (function [a] -> ROk (match Model.c06_spec_decode (vb a) with Some t -> triple t | None -> VNone) | _ -> bad ());
-  register "c06_valid_segwit" (function [a] -> ROk (VBool (Model.c06_valid_segwit (vb a))) | _ -> bad ())
+  register "c06_valid_segwit" (function [a] -> ROk (VBool (Model.c06_valid_segwit (vb a))) | _ -> bad ());
+  register "c06_classify_batch" (function [l] ->
+      ROk (VL (List.map (fun s -> let s = vb s in
+        VT [elem triple (Model.c06_decode_valid s); elem (fun b -> VBool b) (Model.c06_is_segwit_addr s);
+            elem (fun b -> VBool b) (Model.c06_is_addr sha256 s)]) (vl l))) | _ -> bad ());
+  register "c06_encode_batch" (function [l] ->
+      ROk (VL (List.map (fun it -> let (d, v, n) = item3 it in elem (fun b -> VB b) (Model.c06_segwit_addr d v n)) (vl l))) | _ -> bad ())
